@@ -232,6 +232,23 @@ func (lv *LeafVariants) GetHighestPrecedence(onlyNewOrUpdated bool, includeDefau
 		}
 		return nil
 	}
+	// the highest entry is marked for deletion. The entry that becomes active is the highest of the
+	// remaining entries, which is not necessarily the second highest (that might be marked for deletion as well).
+	if checkExistsAndDeleteFlagSet(secondHighest) {
+		secondHighest = nil
+		for _, e := range lv.les {
+			if e.GetDeleteFlag() {
+				continue
+			}
+			if secondHighest == nil || secondHighest.Priority() > e.Priority() {
+				secondHighest = e
+			}
+		}
+		if secondHighest == nil {
+			return nil
+		}
+	}
+
 	// otherwise if the secondhighest is not marked for deletion return it
 	if !checkExistsAndDeleteFlagSet(secondHighest) && checkNotOwner(secondHighest, RunningIntentName) {
 		return secondHighest
